@@ -42,15 +42,15 @@ def run(ctx):
     else:
         names = G.ERF + G.CHEBSUM + ["invrect"]
         for name in names:
-            reps = 3 if quick else 16
+            reps = (3 if name != "invrect" else 8) if quick else 16
             for rep in range(reps):
                 for cheb in (True, False):
                     if name in G.ERF or name == "invrect":
                         hi = 60 if cheb else 24
                         lo = 1
                         if name == "invrect":
-                            deg = rng.choice([2, 4, 6, 8])
-                            a = {"degree": deg, "delta": rng.choice([2.0, 4.0]), "kappa": rng.choice([2, 3]), "epsilon": rng.choice([0.1, 0.3])}
+                            deg = rng.choice([2, 4, 6, 8]) if not cheb else rng.choice([4, 20, 26, 30, 50, 52, 58, 60])
+                            a = {"degree": deg, "delta": rng.choice([2.0, 4.0]), "kappa": rng.choice([2, 3, 4]), "epsilon": rng.choice([0.1, 0.3, 0.01])}
                         else:
                             deg = G.right_parity_degree(rng, name, lo, hi) if rep else G.right_parity_degree(rng, name, lo, 9)
                             a = dict(G.shape_args(rng, name), degree=deg)
